@@ -109,6 +109,16 @@ CLAIMS = {
              "x restarts x recovery images.",
              technique="Lean 4 invariant proof (ReadInv over journal + cache + worker) + correspondence/oracle against the reference log",
              ref="8 C07"),
+ "C02": dict(text="Proved (c02_clean_restart, c02_cycles, c02_refinement_continues): for every legal history with the worker alive, "
+             "if everything is flushed, the worker is quiet and no removal is outstanding, then drop + open with ANY "
+             "configuration succeeds, issues no file-system call, leaves every file byte-identical, and yields the same state, "
+             "the same index map and the same chunk table; the journal and replay invariants hold again, so this iterates over "
+             "any number of cycles, and with covering cache limits the refinement to the reference log (C01) continues. Built on "
+             "a replay invariant (replaying the retained journal from scratch gives the live state and index, also after purges "
+             "dropped chunks). Correspondence/oracle: state, entries, directory and size around every clean restart with "
+             "different limits, open must not touch files.",
+             technique="Lean 4 replay invariant + restart theorem + correspondence/oracle around restarts",
+             ref="8 C02"),
 }
 
 NOT_YET = "check not built yet (work in progress; see DESIGN.md section 8)"
